@@ -149,6 +149,11 @@ def execute(init_table, ops, family="ember", universe=("g1", "g2", "g3")):
             ncp.answer = "ok"
             _run(mc._initialize())
             ev = {"a": "Startup", "ret": "none"}
+        elif op[0] == "NcpChange":
+            # the NCP's table changes behind the host's back; nothing is called on the host
+            ncp.table = FakeNcp(op[1], family).table
+            trace.append({"a": "NcpChange", "ret": "none", "wrote": [], "tbl": ncp.view(), "subs": [], "free": 0})
+            continue
         else:
             name, g, ans = op
             ncp.answer = ans
@@ -226,7 +231,7 @@ def run(ctx: Ctx):
     dot = ctx.workdir / "multicast.dot"
     ctx.model_check("Multicast", "MC_Multicast", constants=CONST(groups, maxn), invariants=INVS,
                     properties=PROPS, dump_dot=dot, workers=1,
-                    required_actions=("Startup", "Subscribe", "Unsubscribe"))
+                    required_actions=("Startup", "Subscribe", "Unsubscribe", "NcpChange"))
     edges, nn, ne = spec_edges(dot)
     ctx.notes["spec_graph"] = {"nodes": nn, "edges": ne, "state_label_pairs": len(edges)}
 
@@ -267,7 +272,7 @@ def run(ctx: Ctx):
                 tr = execute(tab, [("Startup",)], family)
                 traces.append(tr)
                 metas.append({"family": family, "init": tab, "ops": [("Startup",)]})
-    started_edges = {e for e in edges if e[0][0]}
+    started_edges = {e for e in edges if e[0][0] and not e[1].startswith("NcpChange")}
     hit = {e for e in started_edges if e in covered}
     ctx.notes["spec_to_code"] = {"started_state_label_pairs": len(started_edges), "executed_on_impl": len(hit)}
     if len(hit) < len(started_edges):
@@ -319,6 +324,25 @@ def run(ctx: Ctx):
                            ("Subscribe", g, "ok"), ("Subscribe", g2, "ok"), ("Startup",), ("Unsubscribe", g, "ok"), ("Subscribe", g2, "ok")]
                     traces.append(execute(tab, ops, family))
                     metas.append({"family": family, "init": tab, "ops": ops})
+    # ---- the NCP's table changing behind the host's back (NCP restart, foreign writer), then another start-up scan on the SAME object:
+    #      the scan must rebuild the view from the table alone; every pair of tables, the view exercised before and after
+    for family in ("ember", "sl"):
+        for n in range(1, maxn + 1):
+            tabs = init_tables(n, groups)
+            k = 0
+            for t1 in tabs:
+                for t2 in tabs:
+                    if t1 == t2:
+                        continue
+                    k += 1
+                    if (ctx.quick and n == maxn and k % 7) or (family == "sl" and k % 3):
+                        continue
+                    g = groups[k % len(groups)]
+                    g2 = groups[(k + 1) % len(groups)]
+                    ops = [("Startup",), ("Subscribe", g, "ok"), ("NcpChange", t2), ("Startup",), ("Subscribe", g, "ok"), ("Subscribe", g2, "ok"),
+                           ("Unsubscribe", g, "ok"), ("NcpChange", t1), ("Startup",), ("Unsubscribe", g2, "ok"), ("Subscribe", g, "ok")]
+                    traces.append(execute(t1, ops, family))
+                    metas.append({"family": family, "init": t1, "ops": ops})
     # ---- random long histories beyond the model's bounds (code -> spec)
     big = ("g1", "g2", "g3", "g4", "g5")
     nrand = 60 if ctx.quick else 600
